@@ -92,4 +92,4 @@ def prebuild(root):
     """translators (the first error text is returned): coq/Generated/DigitGen.v from /repo/src/digit.rs (Proofs/DigitTie.v),
     coq/Generated/Glue.v from the one-line projection functions (Proofs/GlueTie.v), coq/Generated/Loops.v from the loop
     functions of /repo/src/buint (Proofs/LoopsTie*.v) -- each proved equal to the hand-written model"""
-    return run_translator(root, "rs2v_digit.py") or run_translator(root, "rs2v_glue.py") or run_translator(root, "rs2v_loops.py")
+    return run_translator(root, "rs2v_digit.py") or run_translator(root, "rs2v_glue.py", "C02") or run_translator(root, "rs2v_loops.py", "C02")
